@@ -44,6 +44,10 @@ DEVIATIONS = {
     'ack_per_key': (['C11'],
                     'a SETTINGS ACK applies one pending value of EVERY key instead of the changes of the one frame it answers '
                     '(ACK of the initial frame applies a later update_settings)'),
+    'settings_ack_length_code': (['C18'],
+                                 'a SETTINGS frame with the ACK flag and a non-empty payload is answered with GOAWAY(PROTOCOL_ERROR); '
+                                 'RFC 7540 section 6.5 makes it a FRAME_SIZE_ERROR (found by TLC: P_C18_SizeViolationsAreFrameSizeErrors '
+                                 'on MC_RawS)'),
     'stream_id_above_max': (['C09', 'C02'],
                             'send_headers / push_stream accept a stream id of 2^31 or more (send_headers(2**31+1, ...) on a client): the '
                             'id is recorded as the highest outbound id and the frame goes out with only its low 31 bits (stream 1)'),
